@@ -261,6 +261,9 @@ def run(tier, seed, replay_path=None):
     ck.fork_map(items, lambda c, it: explore_first(c, it[0], m, menu_n, tier, it[1]))
     for need in ('pipeline with quit', 'pipeline with quitq', 'pipeline with no quit', 'pipeline delivered in several segments', 'unimplemented opcode in the pipeline'):
         ck.covers.setdefault(need, False)
+    # an oversized request inside a pipeline: skipped exactly, whatever the segmentation, so that its followers are served
+    from . import sock_common
+    sock_common.c12_socket(ck, tier)
     return ck.finish()
 
 
